@@ -55,6 +55,7 @@ type PendSnap struct {
 
 type Snapshot struct {
 	Height     int64
+	Now        int64 // block time, seconds since genesis
 	Vals       map[int]*ValSnap
 	Idx        [][2]int64 // (power, id) in iteration order
 	Last       map[int]int64
@@ -104,7 +105,7 @@ func (c *Chain) consID(v interface{ GetConsAddr() ([]byte, error) }) int {
 func (c *Chain) Snap() *Snapshot {
 	ctx := c.Ctx()
 	app := c.App
-	s := &Snapshot{Height: c.Height, Vals: map[int]*ValSnap{}, Last: map[int]int64{}, Sign: map[int]*SignSnap{}, CometNext: map[int]int64{},
+	s := &Snapshot{Height: c.Height, Now: c.Time.Unix() - genesisUnix, Vals: map[int]*ValSnap{}, Last: map[int]int64{}, Sign: map[int]*SignSnap{}, CometNext: map[int]int64{},
 		QPower: map[int]string{}, Seqs: map[int]uint64{}, Seq0: c.seq0, Dels: map[int]string{}}
 	vals, _ := app.StakingKeeper.GetAllValidators(ctx)
 	for _, v := range vals {
@@ -509,6 +510,36 @@ func (c *Chain) ExecBlock(b BlockSpec) *BlockTrace {
 		}
 	}
 	b.Absent = effAbsent
+	// H-evidence (DESIGN.md App. A): CometBFT forwards evidence about validators the chain still knows (its evidence window is
+	// shorter than the unbonding period) and of heights that are not in the future; other entries are dropped from the spec.
+	// H-alive as above: the punishment never takes the last validator of the upcoming set.
+	var effEv []EvSpec
+	if len(b.Evidence) > 0 {
+		ctx := c.Ctx()
+		punished := map[string]bool{}
+		for _, e := range b.Evidence {
+			if e.Cons < 0 || e.Cons >= poolSize || e.Height < 1 || e.Height > c.Height+1 || e.Power < 0 {
+				continue
+			}
+			cons := c.Keys.Pool[e.Cons].Cons
+			if _, err := c.App.StakingKeeper.GetValidatorByConsAddr(ctx, cons); err != nil {
+				continue
+			}
+			aliveAfter := int64(0)
+			for _, nv := range c.Next.Validators {
+				k := string(nv.Address)
+				if !absent[k] && !punished[k] && k != string(cons) {
+					aliveAfter += nv.VotingPower
+				}
+			}
+			if aliveAfter <= 0 {
+				continue
+			}
+			punished[string(cons)] = true
+			effEv = append(effEv, e)
+		}
+	}
+	b.Evidence = effEv
 	// Upper-case spellings of a validator address are explored only where the outcome does not depend on which spelling
 	// the chain has stored (DESIGN.md §13): a re-application by an operator that is pending or has a validator record,
 	// and SetPower / RemovePending aimed at a pending application; the operator must not be mentioned twice in the block.
@@ -597,7 +628,7 @@ func (c *Chain) ExecBlock(b BlockSpec) *BlockTrace {
 		}
 		txs = append(txs, bz)
 	}
-	res := c.RunBlock(b.Dt, absent, txs)
+	res := c.RunBlock(b.Dt, absent, b.Evidence, txs)
 	bt.Halt, bt.Comet, bt.AppHash = res.Halt, res.Comet, res.AppHash
 	if res.Halt != "" {
 		return bt
